@@ -132,10 +132,11 @@ CHECKS["C23"] = dict(
         dict(name="harness_c23_ring", quick={"nprimes": 3, "nmax": 3}, thorough={"nprimes": 5, "nmax": 4}),
         dict(name="harness_c23_div", quick={"nprimes": 2, "nmax": 3}, thorough={"nprimes": 4, "nmax": 4}),
         dict(name="harness_c23_factor", quick={"nprimes": 3, "fmax": 2, "max_random": 3}, thorough={"nprimes": 4, "fmax": 2, "max_random": 5, "_wall": 2400}),
+        dict(name="harness_c23_factor_deg4", quick={"nprimes": 1, "fmax": 4, "max_random": 3}, thorough={"nprimes": 2, "fmax": 4, "max_random": 4, "_wall": 2400}),
         dict(name="harness_c23_factor_deg3", quick={"nprimes": 2, "fmax": 3, "max_random": 3}, thorough={"nprimes": 3, "fmax": 3, "max_random": 4, "_wall": 2400}),
     ],
     anchors=["SymEngine::GaloisFieldDict::gf_div", "SymEngine::GaloisFieldDict::mul", "SymEngine::GaloisFieldDict::gf_gcd", "SymEngine::GaloisFieldDict::gf_factor", "SymEngine::GaloisFieldDict::gf_monic"],
-    bounds="p in {2,3,5} (thorough adds 7, 11), coefficient vectors of length <= 3 (4) with symbolic entries in [0,p); ring operations, division with remainder, gcd, monic, powers <= 3, evaluation at a symbolic point, derivative; factorisation of polynomials of degree <= 2 over p <= 5 (7) and of degree 3 over p <= 3 (5): product of factors, monic, irreducible (no root, degree <= 3); mp_urandomm returns a symbolic value so the randomised algorithms are checked for every random choice, with at most 3 (6) random draws per run (runs needing more draws are outside the claim)",
+    bounds="p in {2,3,5} (thorough adds 7, 11), coefficient vectors of length <= 3 (4) with symbolic entries in [0,p); ring operations, division with remainder, gcd, monic, powers <= 3, evaluation at a symbolic point, derivative; factorisation of polynomials of degree <= 2 over p <= 5 (7) of degree 3 over p <= 3 (5) and of degree 4 over p = 2 (3): product of factors, square-free decomposition with multiplicities, monic, irreducible (no root, degree <= 3); mp_urandomm returns a symbolic value so the randomised algorithms are checked for every random choice, with at most 3 (6) random draws per run (runs needing more draws are outside the claim)",
     outside=["degree above 3", "primes above 11", "gf_compose_mod, gf_trace_map, lcm"],
 )
 
@@ -144,7 +145,7 @@ CHECKS["C32"] = dict(
     entries=[
         dict(name="harness_c32_gcd", quick={"B": 10}, thorough={"B": 30}),
         dict(name="harness_c32_divmod", quick={"B": 1000}, thorough={"B": 1000000}),
-        dict(name="harness_c32_modular", quick={"M": 10}, thorough={"M": 24}),
+        dict(name="harness_c32_modular", quick={"M": 18}, thorough={"M": 40}),
         dict(name="harness_c32_crt", quick={}, thorough={}),
         dict(name="harness_c32_multiplicative", quick={"N": 24}, thorough={"N": 60}),
         dict(name="harness_c32_symbols", quick={"N": 9}, thorough={"N": 35}),
@@ -153,7 +154,7 @@ CHECKS["C32"] = dict(
         dict(name="harness_c32_primes", quick={"vmax": 200}, thorough={"vmax": 1000}),
     ],
     anchors=["SymEngine::gcd_ext", "SymEngine::quotient_mod_f", "SymEngine::mod_inverse", "SymEngine::crt", "SymEngine::nthroot_mod_list", "SymEngine::totient", "SymEngine::carmichael", "SymEngine::primitive_root", "SymEngine::jacobi", "SymEngine::kronecker", "SymEngine::fibonacci", "SymEngine::binomial", "SymEngine::nextprime", "SymEngine::mobius"],
-    bounds="gcd/lcm/gcd_ext |a|,|b|<=10 (30) with a symbolic common-divisor candidate; quotient/mod both conventions |n|<=1000 (1e6) symbolic, 0<|d|<=12; mod_inverse, nthroot_mod(_list) (n<=4), is_nth_residue for m<=10 (24); crt with two moduli <=9; totient, carmichael, mobius, prime factors, multiplicative_order, primitive_root for n<=24 (60); Legendre/Jacobi/Kronecker, quadratic residues for n<=15 (35); Fibonacci/Lucas/factorial recurrences n<=31 (91), Pascal's rule for tops -6..20 and k<=8 incl. negative tops, nextprime/probab_prime_p up to 200 (1000); definitions evaluated by brute force in the harness",
+    bounds="gcd/lcm/gcd_ext |a|,|b|<=10 (30) with a symbolic common-divisor candidate; quotient/mod both conventions |n|<=1000 (1e6) symbolic, 0<|d|<=12; mod_inverse, nthroot_mod(_list) (n<=4), is_nth_residue for m<=18 (40); crt with two moduli <=9; totient, carmichael, mobius, prime factors, multiplicative_order, primitive_root for n<=24 (60); Legendre/Jacobi/Kronecker, quadratic residues for n<=15 (35); Fibonacci/Lucas/factorial recurrences n<=31 (91), Pascal's rule for tops -6..20 and k<=8 incl. negative tops, nextprime/probab_prime_p up to 200 (1000); definitions evaluated by brute force in the harness",
     outside=["bernoulli, harmonic, factor_* heuristics (pollard, lehman), polygonal numbers, perfect-power decomposition, primepi, primorial, mertens", "large arguments"],
 )
 
@@ -425,10 +426,11 @@ CHECKS["C42"] = dict(
         dict(name="harness_c42_strings", quick={}, thorough={}),
         dict(name="harness_c42_containers", quick={"steps": 2}, thorough={"steps": 4}),
         dict(name="harness_c42_ntheory", quick={}, thorough={}),
+        dict(name="harness_c42_sets", quick={}, thorough={}),
         dict(name="harness_c42_lambda", quick={}, thorough={}),
     ],
-    anchors=["basic_add", "basic_pow", "rational_set_si", "vecbasic_get", "setbasic_insert", "mapbasicbasic_get", "ntheory_mod", "basic_parse", "integer_set_str", "lambda_real_double_visitor_init"],
-    bounds="operands built through the C constructors (integer_set_si with a symbolic long in [-2,2] (thorough [-6,6]), rational_set_si with symbolic numerator in the same range and denominator in [-2,3] incl. 0 (for atan2, beta and pairs with a double operand the exact operands are enumerated as paths), symbol_set, real_double_set_d) for all 4x4 kind pairs x 8 binary operations and 31 unary functions, each compared with the C++ function (equal result, or an error code equal to the exception's code exactly when C++ throws); 15 strings through basic_parse and integer_set_str; histories of 2 (4) operations on CVecBasic / CSetBasic / CMapBasicBasic against std::vector / std::set / std::map models with symbolic indices inside the valid range; 9 ntheory functions with symbolic a in [-6,6], b in [-4,4] incl. zero divisors; lambda_real_double_visitor_init on expressions the evaluator refuses; every C call is wrapped so that an escaping C++ exception is an assertion failure; Expression operators + - * / unary - == += *= against add/sub/mul/div/neg/eq",
+    anchors=["basic_add", "basic_pow", "rational_set_si", "vecbasic_get", "setbasic_insert", "mapbasicbasic_get", "ntheory_mod", "basic_set_interval", "basic_set_union", "basic_parse", "integer_set_str", "lambda_real_double_visitor_init"],
+    bounds="operands built through the C constructors (integer_set_si with a symbolic long in [-2,2] (thorough [-6,6]), rational_set_si with symbolic numerator in the same range and denominator in [-2,3] incl. 0 (for atan2, beta and pairs with a double operand the exact operands are enumerated as paths), symbol_set, real_double_set_d) for all 4x4 kind pairs x 8 binary operations and 31 unary functions, each compared with the C++ function (equal result, or an error code equal to the exception's code exactly when C++ throws); 15 strings through basic_parse and integer_set_str; histories of 2 (4) operations on CVecBasic / CSetBasic / CMapBasicBasic against std::vector / std::set / std::map models with symbolic indices inside the valid range; 9 ntheory functions with symbolic a in [-6,6], b in [-4,4] incl. zero divisors; the set constructors (interval with symbolic integer ends and both flags, finite sets, empty/universal/reals/rationals/integers/complexes) and union, intersection, complement, subset/superset, contains, sup, inf, closure, interior against the C++ set API; lambda_real_double_visitor_init on expressions the evaluator refuses; every C call is wrapped so that an escaping C++ exception is an assertion failure; Expression operators + - * / unary - == += *= against add/sub/mul/div/neg/eq",
     outside=["indices outside the valid range and handles of the wrong type (stated preconditions of the C API, SYMENGINE_ASSERT)", "matrix functions of the C API", "MPFR/MPC/LLVM entry points (not in this build)", "basic_dumps/basic_loads"],
 )
 
